@@ -22,9 +22,11 @@ TIERS = {
     "quick": {"shards": 4, "cases": 4000, "timeout": 300},
     "thorough": {"shards": 16, "cases": 30000, "timeout": 3000},
 }
-FLOORS = {"quick": {"distinct_nontrivial": 1500, "operations_checked": 40000, "slices": 4000, "formats": 4000,
+FLOORS = {"quick": {"texts_whose_characters_look_like_colour_sequences": 500,
+                    "distinct_nontrivial": 1500, "operations_checked": 40000, "slices": 4000, "formats": 4000,
                     "index_errors_agree": 300, "equality_probes": 30000},
-          "thorough": {"distinct_nontrivial": 50000, "operations_checked": 2000000, "slices": 200000,
+          "thorough": {"texts_whose_characters_look_like_colour_sequences": 2000,
+                       "distinct_nontrivial": 50000, "operations_checked": 2000000, "slices": 200000,
                        "formats": 200000, "index_errors_agree": 15000, "equality_probes": 1500000}}
 LEVEL_TEXT = ("Runtime exploration with a shadow model: every public operation on CHText / chunks is mirrored on a "
               "list of (character, colour) cells with plain str/list semantics; the rendering is read back through "
